@@ -5,31 +5,6 @@ Import ListNotations.
 Open Scope string_scope.
 Open Scope list_scope.
 
-(* the dispatch table the three emitters are supposed to share: id, routine name, what it is for *)
-Fixpoint table_from (i : nat) (l : list (option slot)) : list (nat * string * what) :=
-  match l with
-  | [] => []
-  | None :: Some s :: r =>
-    (i, (routine_base s ++ "_" ++ nat_dec i)%string, WSlot s)
-      :: (S i, (s_cls s ++ "_upcastFromVoid_" ++ nat_dec (S i))%string, WUpcast (s_cls s))
-      :: table_from (S (S i)) r
-  | None :: r => table_from (S i) r
-  | Some s :: r => (i, (routine_base s ++ "_" ++ nat_dec i)%string, WSlot s) :: table_from (S i) r
-  end.
-
-(* a reserved id is always followed by the collector it was reserved for *)
-Fixpoint wf_slots (l : list (option slot)) : bool :=
-  match l with
-  | [] => true
-  | None :: Some _ :: r => wf_slots r
-  | None :: _ => false
-  | Some _ :: r => wf_slots r
-  end.
-
-Definition id_of (e : nat * string * what) : nat := fst (fst e).
-Definition name_of (e : nat * string * what) : string := snd (fst e).
-Definition what_of (e : nat * string * what) : what := snd e.
-
 Section Proofs.
   (* strong induction on the length *)
   Lemma slots_ind : forall (P : list (option slot) -> Prop),
@@ -138,6 +113,13 @@ Qed.
 Lemma wf_map_some : forall (A : Type) (f : A -> slot) (l : list A), wf_slots (map (fun x => Some (f x)) l) = true.
 Proof. intros. induction l; [reflexivity | cbn [map wf_slots]; assumption]. Qed.
 
+Lemma wf_mapi_some : forall (A : Type) (f : nat -> A -> slot) (l : list A),
+  wf_slots (mapi (fun i x => Some (f i x)) l) = true.
+Proof.
+  intros A f l. unfold mapi. generalize 0 as k. induction l as [|x r IH]; intros k; [reflexivity|].
+  cbn [mapi_aux wf_slots]. apply IH.
+Qed.
+
 Lemma wf_flat_map : forall (A : Type) (f : A -> list (option slot)) (l : list A),
   (forall x, wf_slots (f x) = true) -> wf_slots (flat_map f l) = true.
 Proof.
@@ -151,8 +133,9 @@ Qed.
 
 Section Walk.
   Variable c : mcfg.
+  Variable top : list item.
 
-  Lemma class_slots_wf : forall home k l, class_slots c home k = Some l -> wf_slots l = true.
+  Lemma class_slots_wf : forall home k l, class_slots c top home k = Some l -> wf_slots l = true.
   Proof.
     intros home k l H. unfold class_slots in H.
     destruct (sequence _) as [ctors|] eqn:Ec; [|discriminate].
@@ -160,7 +143,7 @@ Section Walk.
     destruct (grouped is_name is_args _) as [sg|]; [|discriminate].
     inversion H; subst. clear H.
     assert (Hrest : forall rest, wf_slots rest = true ->
-              forall coll, wf_slots (((if ic_virtual k then [None] else []) ++ [Some coll]) ++ rest) = true).
+              forall coll : slot, wf_slots (((if ic_virtual k then [None] else []) ++ [Some coll]) ++ rest) = true).
     { intros rest Hr coll. destruct (ic_virtual k); cbn [app wf_slots]; exact Hr. }
     apply Hrest. clear Hrest.
     apply wf_app.
@@ -194,7 +177,7 @@ Section Walk.
   Proof.
     intros parent home funs l H. unfold function_slots in H.
     destruct (grouped if_name if_args funs) as [groups|]; [|discriminate]. inversion H; subst.
-    apply wf_flat_map. intros g. apply wf_map_some.
+    apply wf_flat_map. intros g. apply wf_mapi_some.
   Qed.
 
   Lemma app_opt_wf : forall a b l, app_opt a b = Some l ->
@@ -209,14 +192,15 @@ From Wrap Require Import Pybind.SpecProofs.
 
 Section Module.
   Variable c : mcfg.
+  Variable top : list item.
 
-  Lemma item_slots_wf : forall i home l, item_slots c home i = Some l -> wf_slots l = true.
+  Lemma item_slots_wf : forall i home l, item_slots c top home i = Some l -> wf_slots l = true.
   Proof.
     induction i as [k|f|d|f|h|e|v|n content IH] using item_ind'; intros home l H; cbn [item_slots] in H;
       try (inversion H; reflexivity).
     - destruct (ignored c k).
       + destruct home; [discriminate | inversion H; reflexivity].
-      + apply (class_slots_wf c home k l H).
+      + apply (class_slots_wf c top home k l H).
     - eapply app_opt_wf; [exact H | | intros y Hy; apply (function_slots_wf _ _ _ _ Hy)].
       intros x Hx. clear H.
       revert x Hx. induction content as [|a r IHr]; intros x Hx.
@@ -225,7 +209,7 @@ Section Module.
         eapply app_opt_wf; [exact Hx | intros y Hy; apply (Pa _ _ Hy) | intros y Hy; apply (IHr Pr _ Hy)].
   Qed.
 
-  Theorem module_slots_wf : forall content l, module_slots c content = Some l -> wf_slots l = true.
+  Theorem module_slots_wf : forall content l, module_slots c top content = Some l -> wf_slots l = true.
   Proof.
     intros content l H. unfold module_slots in H.
     eapply app_opt_wf; [exact H | | intros y Hy; apply (function_slots_wf _ _ _ _ Hy)].
@@ -236,7 +220,7 @@ Section Module.
   Qed.
 
   (* the three emitters agree: one table *)
-  Theorem dispatch_table : forall content l, module_slots c content = Some l ->
+  Theorem dispatch_table : forall content l, module_slots c top content = Some l ->
     let t := table_from 0 l in
     map id_of t = seq 0 (length l) /\
     cases l = map (fun e => (id_of e, name_of e)) t /\
